@@ -198,6 +198,9 @@ func main() {
 		fmt.Fprintln(os.Stderr, "need -out")
 		os.Exit(2)
 	}
+	if abs, err := filepath.Abs(*out); err == nil {
+		*out = abs // resolve before chdir: a relative -out must never land inside the repository
+	}
 	if err := os.Chdir(*repo); err != nil {
 		fmt.Fprintln(os.Stderr, err)
 		os.Exit(2)
